@@ -6,24 +6,60 @@ V = "/verif"
 env = dict(os.environ, GOFLAGS="-mod=mod", GOPROXY="off")
 env.pop("GOTOOLCHAIN", None); env.pop("GOSUMDB", None)
 def sh(cmd, cwd=None, timeout=6000):
-    p = subprocess.run(cmd, shell=True, cwd=cwd, env=env, stdout=subprocess.PIPE, stderr=subprocess.STDOUT, text=True, timeout=timeout)
+    p = subprocess.run(cmd, shell=True, cwd=cwd, env=env, stdout=subprocess.PIPE, stderr=subprocess.STDOUT, text=True, errors="replace", timeout=timeout)
     return p.returncode, p.stdout
 ids = sys.argv[1:] or sorted(os.listdir(os.path.join(V, "seeded")))
 tier = os.environ.get("SEED_TIER", "quick")
 rc, st = sh("git -C /repo status --porcelain")
 assert st.strip() == "", "/repo not clean:\n" + st
-for sid in ids:
-    d = os.path.join(V, "seeded", sid)
-    meta = json.load(open(os.path.join(d, "meta.json")))
-    prop = meta.get("breaks_property") or sid.split("-")[0]
+def run_one(sid, d, prop):
     rc, o = sh(f"git -C /repo apply {os.path.join(d, 'patch.diff')}")
     if rc != 0:
-        print(sid, "PATCH DOES NOT APPLY", o[-300:]); continue
+        print(sid, "PATCH DOES NOT APPLY", o[-300:]); return None
+    ev = os.path.join(V, "evidence", prop + ".json")
+    evidence_keep = open(ev).read() if os.path.exists(ev) else None
     try:
         t0 = time.time()
         rcc, oc = sh(f"./vcheck {prop} {tier}", cwd=V)
     finally:
         sh("git -C /repo checkout -- . && git -C /repo clean -fdq")
+        if evidence_keep is not None:
+            open(ev, "w").write(evidence_keep)  # the evidence file describes runs on the unchanged tree only
+    res = {"check_exit": rcc, "check_wall_s": round(time.time() - t0, 1),
+           "check_violation_lines": [l for l in oc.splitlines() if l.startswith("VIOLATION")][:6],
+           "check_signatures": [l.strip() for l in oc.splitlines() if l.strip().startswith("signature=")][:6]}
+    res["detected"] = rcc == 1 and bool(res["check_violation_lines"])
+    return res
+
+for sid in ids:
+    d = os.path.join(V, "seeded", sid)
+    meta = json.load(open(os.path.join(d, "meta.json")))
+    prop = meta.get("breaks_property") or sid.split("-")[0]
+    props = [prop] + [p for p in meta.get("detect_with", []) if p != prop]
+    results = {}
+    for prop in props:
+        results[prop] = run_one(sid, d, prop)
+    det = [p for p in props if results[p] and results[p]["detected"]]
+    meta["check_run"] = "; ".join(f"./vcheck {p} {tier}" for p in props) + " with the patch applied to /repo"
+    meta["check_result"] = results[props[0]]
+    if len(props) > 1:
+        meta["check_results_other_properties"] = {p: results[p] for p in props[1:]}
+    meta["detected_by"] = det
+    json.dump(meta, open(os.path.join(d, "meta.json"), "w"), indent=1)
+    print(sid, "DETECTED by " + ",".join(det) if det else "MISSED", [results[p]["check_signatures"][:2] for p in props if results[p]])
+    continue
+    rc, o = sh(f"git -C /repo apply {os.path.join(d, 'patch.diff')}")
+    if rc != 0:
+        print(sid, "PATCH DOES NOT APPLY", o[-300:]); continue
+    ev = os.path.join(V, "evidence", prop + ".json")
+    evidence_keep = open(ev).read() if os.path.exists(ev) else None
+    try:
+        t0 = time.time()
+        rcc, oc = sh(f"./vcheck {prop} {tier}", cwd=V)
+    finally:
+        sh("git -C /repo checkout -- . && git -C /repo clean -fdq")
+        if evidence_keep is not None:
+            open(ev, "w").write(evidence_keep)  # the evidence file describes runs on the unchanged tree only
     res = {"check_exit": rcc, "check_wall_s": round(time.time() - t0, 1),
            "check_violation_lines": [l for l in oc.splitlines() if l.startswith("VIOLATION")][:6],
            "check_signatures": [l.strip() for l in oc.splitlines() if l.strip().startswith("signature=")][:6]}
